@@ -164,7 +164,7 @@ fn op_request(o: &OpView<'_>) -> Option<Request<'static>> {
     }
 }
 
-fn written(res_part: &str) -> Vec<u8> {
+pub fn written(res_part: &str) -> Vec<u8> {
     // "... w=AA+BB sd=N"
     let w = res_part
         .split(' ')
